@@ -341,6 +341,7 @@ DEFAULT_PROFILE = dict(
     p_ts_bytes_default=0.0,     # K16: emitted as str, refused by the runtime
     p_multi_pos_custom=0.0,     # K8
     p_three_part_field_ref=0.0,  # K22 (swift/objc _docf)
+    p_alias_field_ref=0.0,       # :field:`Alias.f` (whitelist doc-ref parser)
     p_prefix_pattern_literal=0.0,  # K16
     p_ns_doc=0.5,
     max_depth=3,
@@ -798,6 +799,14 @@ class Gen:
                             out.append(':field:`%s.%s`' % (d.name, f.name))
                         elif self.chance('p_three_part_field_ref'):
                             out.append(':field:`%s.%s.%s`' % (n, d.name, f.name))
+                elif d.kind == 'alias' and n == ns.name and self.chance('p_alias_field_ref'):
+                    # a field named through an alias (chain) of a struct or union
+                    rt, nullable = self.m.resolve_alias(ref(n, d.name))
+                    if rt.kind == 'ref' and not nullable:
+                        fs = self.m.own_fields(self.m.lookup(rt.ns, rt.name))
+                        if fs:
+                            out.append(':field:`%s.%s`' % (d.name, self.rnd.choice(fs).name))
+                            self.m.feature('doc_field_ref_via_alias')
                 elif d.kind == 'route':
                     v = '' if d.version == 1 else ':%d' % d.version
                     out.append(':route:`%s%s%s`' % (pre, d.name, v))
